@@ -9,6 +9,8 @@ CONSTANTS
   RootDt = 1
   StopGT = FALSE
   AsShipped = FALSE
+  HistMaxGenes = 4
+  StaleArgs = FALSE
   Leak = FALSE
 INVARIANT WellFormedFinal
 INVARIANT ExactlyNExtantLeaves
